@@ -665,7 +665,7 @@ def fam_xi(k, tier, acc):
         for (pk, pm) in pats:
             table = group + [[[S], pk, pm, [W]]]
             acc.nontrivial += 1
-            for fn in ("oc", "minimise_table"):
+            for fn in ("oc", "mt"):
                 for t in range(1, len(table) + 1):
                     acc.evaluations += 1
                     r = call(fn, table, t)
@@ -741,7 +741,8 @@ def replay(case, acc):
     t = case["target"]
     sub = type(acc)()
     judge_table(case["table"], case["nbits"], "thorough", sub, case["fam"],
-                targets=[t], remin=True)
+                targets=[t], remin=True,
+                funcs=FUNCS if case["fn"] in FUNCS else FUNCS + (case["fn"],))
     for k, v in sub.violations.items():
         if v["sig"].get("fn") in (case["fn"], case.get("then")):
             acc.violations[k] = v
